@@ -9,3 +9,4 @@ def check(run):
     ast, _ = crules.unit(run, ndebug=True)
     crules.merge_rules(run, r1, None, ast)
     crules.reserve_rules(run, r2, ast)
+    crules.alloc_rules(run, r2, ast)
